@@ -678,6 +678,41 @@ fn run_idle(endpoint: &str, fx: &Fixtures, v: &Value, allowance: Duration) -> Ou
     o
 }
 
+/// ConfigFiles.tla "the files the setup wizard writes are read back with identical meaning": the wizard writes its rules file
+/// with the library's own serializer (`toml::to_string(&RulesConfig)`); the endpoint reads `rules_file` back. The rule list in
+/// force must give the verdicts of the list that was written.
+fn wizard_rules_roundtrip(rep: &mut Report, dir: &Path) {
+    use trusttunnel::rules::{Rule, RuleAction, RulesConfig, RulesEngine};
+    let cfg = || RulesConfig { rule: vec![
+        Rule { cidr: Some("10.0.0.0/8".into()), client_random_prefix: None, action: RuleAction::Deny },
+        Rule { cidr: Some("127.0.0.0/8".into()), client_random_prefix: None, action: RuleAction::Allow },
+        Rule { cidr: Some("2001:db8::/32".into()), client_random_prefix: None, action: RuleAction::Deny },
+        Rule { cidr: Some("0.0.0.0/0".into()), client_random_prefix: None, action: RuleAction::Deny },
+    ] };
+    rep.eval();
+    rep.nontrivial("wizard-rules-roundtrip");
+    let text = match toml::to_string(&cfg()) { Ok(t) => t, Err(e) => { rep.violation_with("config:wizard:rules:serialize", format!("the rule list cannot be written: {}", e), || json!({})); return; } };
+    let path = dir.join("wizard_rules.toml");
+    std::fs::write(&path, &text).expect("write rules");
+    let settings_text = format!("listen_address = \"127.0.0.1:8443\"\nrules_file = \"{}\"\n{}", path.display(), PROTO);
+    let loaded = match catch(|| toml::from_str::<Settings>(&settings_text)) {
+        Ok(Ok(s)) => s,
+        Ok(Err(e)) => { rep.violation_with("config:wizard:rules:refused", format!("the rules file the wizard's serializer wrote is refused: {}", e), || json!({"file": text})); return; }
+        Err(p) => { rep.violation_with("config:wizard:rules:panic", format!("panic: {}", p), || json!({"file": text})); return; }
+    };
+    let reference = RulesEngine::from_config(cfg());
+    let mut diffs = vec![];
+    for pt in ["10.1.2.3", "127.0.0.1", "192.0.2.1", "2001:db8::1", "2001:db9::1"] {
+        let ip: std::net::IpAddr = pt.parse().unwrap();
+        let (got, want) = (verif::rules::engine_evaluate(&loaded, ip, None), Some(reference.evaluate(&ip, None) == trusttunnel::rules::RuleEvaluation::Allow));
+        rep.count("rule_points_evaluated", 1);
+        if got != want { diffs.push(json!({"address": pt, "read_back": got, "written": want})); }
+    }
+    if !diffs.is_empty() {
+        rep.violation_with("config:wizard:rules:meaning", "the rules file written by the wizard's serializer is read back with another meaning", || json!({"file": text, "differences": diffs, "rules_loaded": verif::rules::engine_rule_count(&loaded)}));
+    }
+}
+
 fn main() {
     let out = arg_or("--out", "binconf.result.json");
     quiet_panics();
@@ -709,6 +744,9 @@ fn main() {
                 run_keyvec(&mut rep, &v);
             }
         }
+    }
+    if has("paths") && only_role.as_deref().map(|r| r == "rules").unwrap_or(true) {
+        wizard_rules_roundtrip(&mut rep, &dir);
     }
     if has("paths") {
         for f in &vectors {
